@@ -400,7 +400,7 @@ SUBS = [
     Sub("immutability_sweep", check_sweep,
         rule="hedging scenario (all derivative/underlier types, listed or not) x ~40 operations on instruments and ~10 operation groups on "
              "caller tensors; every generated case is non-trivial (each runs the whole sweep).",
-        strategy=lambda tier: scenario(models=("linear", "mlp", "bs", "ww", "naked", "recurrent", "identity", "identity"), dtype="any", max_paths=4, min_steps=2, max_steps=6),
+        strategy=lambda tier: scenario(models=("linear", "mlp", "bs", "ww", "naked", "recurrent", "identity", "identity", "inplace"), dtype="any", max_paths=4, min_steps=2, max_steps=6),
         examples={"quick": 640, "thorough": 6400}),
     Sub("history", check_history,
         rule="op sequences of length 2..10 over {simulate, compute_hedge, compute_pl, compute_portfolio, compute_loss, price, fit(1 epoch), "
